@@ -441,6 +441,7 @@ pub fn run_stream(src: &mut Source, _spec: &PropSpec, _opts: &RunOpts) -> RunRes
         stats,
         quiesce_from: None,
         probe_start_ns: None,
+        fresh_probe_app: None,
         truncated: false,
         custom,
         custom_log: log,
